@@ -53,6 +53,33 @@ def match_finding(findings, pid, sig):
     return None
 
 
+def generic_replay(path):
+    """re-runs the stored counterexample input through the natively compiled compiler and prints what it produces"""
+    from . import native
+    d = json.load(open(path))
+    rp = d.get('replay', {})
+    print(f"property {d.get('property')}  [{d.get('sig')}]")
+    print(f"claimed: {d.get('what')}")
+    text = rp.get('text')
+    if not text:
+        print('no textual input recorded for this counterexample:', json.dumps(rp)[:2000])
+        return 1
+    r = native.Runner()
+    try:
+        for backend in ('rasn',):
+            out = r.compile(text, backend=backend, config=rp.get('config'))
+            print('--- input'); print(text)
+            if out.get('ok'):
+                print('--- generated'); print(out['generated'])
+                for w in out.get('warnings', []):
+                    print('--- warning:', w.get('display'))
+            else:
+                print('--- result:', json.dumps(out)[:3000])
+    finally:
+        r.close()
+    return 1
+
+
 def main(argv=None):
     ap = argparse.ArgumentParser()
     ap.add_argument('pid')
@@ -67,7 +94,9 @@ def main(argv=None):
     sys.path.insert(0, VERIF)
     m = importlib.import_module(f'harnesses.{pid}')
     if a.replay:
-        return m.replay_file(a.replay)
+        if hasattr(m, 'replay_file'):
+            return m.replay_file(a.replay)
+        return generic_replay(a.replay)
     dump_path = frontend.dump(all_roots(), tag='main')
     from . import native
     native.build()
